@@ -157,8 +157,12 @@ uint64_t rtosc_float2secfracs(float secfracsf)
        <=> secfracs = base_without_comma * 2^(32-exp-4*hexdigits_after_comma)
     */
     int lshift = 32-exp-(hexdigits_after_comma<<2);
-    assert(lshift > 0);
-    secfracs <<= lshift;
+    // the last hex digit can end in up to 3 zero bits, so a fraction that
+    // uses the bits down to 2^-32 (e.g. 0x1.000002p-9) needs a right shift
+    if(lshift >= 0)
+        secfracs <<= lshift;
+    else
+        secfracs >>= -lshift;
     assert((secfracs & 0xFFFFFFFF) == secfracs);
 
     return secfracs;
